@@ -294,7 +294,7 @@ type releaser struct {
 
 func (r *releaser) ReleaseResources(d *rt.UserData) { *r.log = append(*r.log, "rel:"+r.name) }
 
-func runLua(src []byte, gcwait bool, doClose bool) (status string, log []string, errmsg string) {
+func runLua(src []byte, gcwait bool, doClose bool, reuse bool) (status string, log []string, errmsg string) {
 	var stdout bytes.Buffer
 	r := rt.New(&stdout)
 	cleanup := lib.LoadAll(r)
@@ -359,6 +359,13 @@ func runLua(src []byte, gcwait bool, doClose bool) (status string, log []string,
 		log = append(log, "close")
 		r.Close(nil)
 	}
+	if reuse {
+		// the embedder keeps using the runtime after Close: run the chunk once more
+		log = append(log, "reuse")
+		if cerr := rt.Call(t, rt.FunctionValue(clos), nil, rt.NewTerminationWith(nil, 0, true)); cerr != nil {
+			log = append(log, "reuse-error")
+		}
+	}
 	return
 }
 
@@ -372,16 +379,18 @@ func luaEngine(in *bufio.Scanner, out *bufio.Writer) {
 		if err != nil {
 			continue
 		}
-		gcwait, doClose := false, true
+		gcwait, doClose, reuse := false, true, false
 		for _, kv := range f[2:] {
 			switch kv {
 			case "gcwait=1":
 				gcwait = true
 			case "close=0":
 				doClose = false
+			case "reuse=1":
+				reuse = true
 			}
 		}
-		status, log, errmsg := runLua(src, gcwait, doClose)
+		status, log, errmsg := runLua(src, gcwait, doClose, reuse)
 		ls := "-"
 		if len(log) > 0 {
 			ls = strings.Join(log, ";")
